@@ -190,15 +190,25 @@ func (w *MarkdownWriter) writeQuote(para *document.Paragraph) error {
 // writeCodeBlock 写入代码块
 func (w *MarkdownWriter) writeCodeBlock(para *document.Paragraph) error {
 	w.closeList()
-	text := w.extractParagraphText(para)
+	// 围栏代码块中的内容按字面解释：不加强调标记，也不转义
+	var raw strings.Builder
+	for i := range para.Runs {
+		raw.WriteString(para.Runs[i].Text.Content)
+	}
+	text := raw.String()
 	if strings.TrimSpace(text) == "" {
 		return nil
 	}
 
+	// 围栏要比代码中最长的反引号串更长
+	fence := "```"
+	for strings.Contains(text, fence) {
+		fence += "`"
+	}
 	lang := w.opts.DefaultCodeLang
-	w.output.WriteString("```" + lang + "\n")
+	w.output.WriteString(fence + lang + "\n")
 	w.output.WriteString(text + "\n")
-	w.output.WriteString("```\n\n")
+	w.output.WriteString(fence + "\n\n")
 
 	return nil
 }
@@ -427,12 +437,24 @@ func (w *MarkdownWriter) formatRunText(run, prev, next *document.Run) string {
 	trail := text[len(lead)+len(core):]
 	text = core
 
+	// 代码样式的文本在反引号内按字面解释，其余文本中的Markdown标记字符需要转义
+	if run.Properties != nil && w.isCodeStyle(run.Properties) {
+		// 处理代码样式（反引号必须在最内层，否则强调标记会成为代码文本）
+		// 定界的反引号串要比文本中最长的反引号串更长
+		fence := "`"
+		for strings.Contains(text, fence) {
+			fence += "`"
+		}
+		if fence != "`" {
+			text = " " + text + " "
+		}
+		text = fence + text + fence
+	} else {
+		text = escapeMarkdown(text)
+	}
+
 	// 检查格式属性
 	if run.Properties != nil {
-		// 处理代码样式（反引号必须在最内层，否则强调标记会成为代码文本）
-		if w.isCodeStyle(run.Properties) {
-			text = "`" + text + "`"
-		}
 
 		// 检查粗体
 		if run.Properties.Bold != nil {
@@ -459,6 +481,82 @@ func (w *MarkdownWriter) formatRunText(run, prev, next *document.Run) string {
 	}
 
 	return lead + text + trail
+}
+
+// escapeMarkdown 在会被解析为Markdown标记的字符前加反斜杠，使文本按字面显示。
+// 行内标记字符总是转义；只在行首起作用的标记（# - + = > 以及 1. 这样的编号）按单词判断，
+// 因为换行、列表项、引用都可能让任何一个单词出现在行首
+func escapeMarkdown(text string) string {
+	var buf strings.Builder
+	runes := []rune(text)
+	for i := 0; i < len(runes); {
+		if unicode.IsSpace(runes[i]) {
+			buf.WriteRune(runes[i])
+			i++
+			continue
+		}
+		end := i
+		for end < len(runes) && !unicode.IsSpace(runes[end]) {
+			end++
+		}
+		word := string(runes[i:end])
+		switch {
+		case blockMarkerWord(word):
+			// 标题、列表、Setext下划线、分割线、表格分隔行的标记：转义第一个字符
+			buf.WriteString("\\" + word)
+		case orderedMarkerWord(word):
+			// 有序列表的编号：转义编号后的 . 或 )
+			buf.WriteString(word[:len(word)-1] + "\\" + word[len(word)-1:])
+		default:
+			for j := i; j < end; j++ {
+				switch r := runes[j]; r {
+				case '\\', '`', '*', '_', '[', ']', '<', '~', '|', '$':
+					buf.WriteRune('\\')
+				case '>':
+					// 引用标记只在行首起作用
+					if j == i {
+						buf.WriteRune('\\')
+					}
+				case '&':
+					// 字符引用：&amp; &#35;
+					if j+1 < len(runes) && (runes[j+1] == '#' || runes[j+1] < unicode.MaxASCII && (unicode.IsLetter(runes[j+1]) || unicode.IsDigit(runes[j+1]))) {
+						buf.WriteRune('\\')
+					}
+				}
+				buf.WriteRune(runes[j])
+			}
+		}
+		i = end
+	}
+	return buf.String()
+}
+
+// blockMarkerWord 判断单词是否完全由块标记字符组成：#（标题）、+（列表）、=（Setext下划线）、
+// - 和 :（列表、Setext下划线、分割线、表格分隔行）
+func blockMarkerWord(word string) bool {
+	switch {
+	case word == "+":
+		return true
+	case strings.Trim(word, "#") == "", strings.Trim(word, "=") == "":
+		return true
+	case strings.Trim(word, "-:") == "":
+		return strings.Contains(word, "-")
+	}
+	return false
+}
+
+// orderedMarkerWord 判断单词是否是有序列表的编号（最多9位数字加 . 或 )）
+func orderedMarkerWord(word string) bool {
+	n := len(word) - 1
+	if n < 1 || n > 9 || (word[n] != '.' && word[n] != ')') {
+		return false
+	}
+	for i := 0; i < n; i++ {
+		if word[i] < '0' || word[i] > '9' {
+			return false
+		}
+	}
+	return true
 }
 
 // extractCellText 提取单元格文本
